@@ -16,6 +16,16 @@
 // record in the order `classic_scan` walks the list; the disposer leaves a `dispose o<id>` note; `deref` is a
 // scheduling point followed by `A use o<id> <live|retired|disposed>` (state read from the library's retired arrays);
 // results have the machine's shape.  tools/hp_pre.py rewrites such a trace into the machine's vocabulary.
+//
+// `--static 1` with the DHP variants (tie A against the Lean machine Algo/DHP/Model): as above, and the guards are part of
+// the traced program: `galloc h` constructs Guard object h (thread_hp_storage::alloc: a pseudo-event `galloc T<t> hp<t>.<b>.<i>`
+// when the thread-local free list yields a guard, the real store `st ext<t> gb<t>.<k>` when the storage is extended by a
+// block), `gfree h` destroys it (the real store of nullptr to the slot).  Hazard slots are named `hp<tid>.<blk>.<slot>`
+// (blk 0 = the initial array, blk k = the k-th extension block the record linked), `extended_list_` is `ext<tid>`, the
+// guard_block headers `gb<tid>.<k>`.  The thread-local steps of the retired storage are pseudo-events / notes:
+// `A retire T<t> o<id> <entries after the push>` immediately before retired_array::push (no scheduling point in between),
+// `scanned <blocks of the retired chain>` after a reclamation pass has returned, `dispose o<id>` from the disposer.
+// Header words: init= B= RB= T= cells=.  tools/dhp_pre.py rewrites such a trace into the machine's vocabulary.
 #include <cds/init.h>
 #include <cds/gc/hp.h>
 #include <cds/gc/dhp.h>
@@ -25,7 +35,7 @@
 
 using namespace khizmax_libcds_verif;
 
-static const int MAXT = 8, MAXG = 48, MAXC = 4;
+static const int MAXT = 8, MAXG = 256, MAXC = 4;   // MAXG: Guard objects per thread (`--grow` uses up to 250)
 
 struct Obj { int id; int disposed; int retired; };
 
@@ -107,6 +117,13 @@ struct ISmr {
     virtual void* my_record() { return nullptr; }
     virtual bool in_retired( Obj* ) { return false; }       // is p in some thread's retired array right now?
     virtual size_t retired_capacity() { return 0; }
+    // static mode (DHP only)
+    virtual std::vector<long> galloc( int, int ) { return {}; }   // construct Guard object h of thread t; returns { block, index } of its slot
+    virtual void gfree( int, int ) {}
+    virtual size_t retired_count() { return 0; }            // entries of the calling thread's retired chain
+    virtual size_t retired_blocks() { return 0; }           // blocks of the calling thread's retired chain
+    virtual bool push_fills() { return false; }             // will the next retired_array::push return false (the caller then scans)?
+    virtual std::string dhp_header() { return std::string(); }
     virtual void destroy() = 0;
 };
 
@@ -185,6 +202,123 @@ struct HpSmr : SmrT<cds::gc::HP> {
 struct DhpSmr : SmrT<cds::gc::DHP> {
     explicit DhpSmr( size_t initial ) { gc.reset( new cds::gc::DHP( initial )); }
     bool slot_holds( Obj* ) override { return true; }     // not inspected for DHP (block lists): the clause is checked for HP only
+
+    // ---- static mode (tie A against Algo/DHP/Model) ----
+    typedef cds::gc::dhp::thread_data rec_t;
+    // layout of smr::thread_record (defined in src/dhp.cpp): the list link follows the thread_data base
+    struct rec_mirror : cds::gc::dhp::thread_data { rec_mirror* next_; };
+    std::vector<cds::gc::dhp::guard_block*> blocks[MAXT];   // extension blocks of thread t's record, in linking order
+    rec_t* recs[MAXT] = {};
+    size_t block_size = 0;                                  // guards per extension block, measured on a block of the allocator
+
+    static rec_t* rec() { return cds::gc::dhp::smr::tls(); }
+    void* my_record() override { return rec(); }
+    // guards per extension block: defaults::c_extended_guard_block_size is local to src/dhp.cpp; hp_allocator::alloc()
+    // chains the guards of the block it returns, the chain is counted and the block is given back
+    size_t probe_block_size()
+    {
+        auto& a = cds::gc::dhp::hp_allocator::instance();
+        cds::gc::dhp::guard_block* b = a.alloc();
+        size_t n = 0;
+        for ( cds::gc::dhp::guard* g = b->first(); g; g = g->next_ ) ++n;
+        a.free( b );
+        return n;
+    }
+    std::string dhp_header() override
+    {
+        if ( !block_size ) block_size = probe_block_size();
+        return "init=" + std::to_string( cds::gc::dhp::smr::instance().initial_hazard_count_ ) + " B=" + std::to_string( block_size )
+            + " RB=" + std::to_string( cds::gc::dhp::retired_block::c_capacity );
+    }
+    bool name_record( int t ) override
+    {
+        rec_t* r = rec();
+        recs[t] = r;
+        char nm[40];
+        for ( size_t g = 0; g < r->hazards_.initial_capacity_; ++g ) {
+            std::snprintf( nm, sizeof nm, "hp%d.0.%d", t, int( g ));
+            reg_name( &r->hazards_.array_[g].hp_, sizeof( r->hazards_.array_[g].hp_ ), nm );
+        }
+        std::snprintf( nm, sizeof nm, "ext%d", t );
+        reg_name( &r->hazards_.extended_list_, sizeof( r->hazards_.extended_list_ ), nm );
+        return true;
+    }
+    std::vector<void*> scan_order() override        // call while quiet
+    {
+        std::vector<void*> v;
+        auto& smr = cds::gc::dhp::smr::instance();
+        for ( rec_mirror* p = reinterpret_cast<rec_mirror*>( smr.thread_list_.load()); p; p = p->next_ )
+            v.push_back( static_cast<rec_t*>( p ));
+        return v;
+    }
+    std::pair<long, long> slot_of( int t, cds::gc::dhp::guard* g )
+    {
+        rec_t* r = recs[t];
+        if ( g >= r->hazards_.array_ && g < r->hazards_.array_ + r->hazards_.initial_capacity_ )
+            return { 0L, long( g - r->hazards_.array_ ) };
+        for ( size_t k = 0; k < blocks[t].size(); ++k )
+            if ( g >= blocks[t][k]->first() && g < blocks[t][k]->first() + block_size )
+                return { long( k + 1 ), long( g - blocks[t][k]->first()) };
+        return { -1L, -1L };
+    }
+    std::vector<long> galloc( int t, int h ) override
+    {
+        rec_t* r = rec();
+        if ( size_t( h ) >= guards[t].size()) guards[t].resize( size_t( h ) + 1 );
+        if ( r->hazards_.free_head_ != nullptr ) {
+            // thread_hp_storage::alloc() pops the thread-local free list: one step, no atomic operation
+            pseudo_begin();
+            set_quiet( true );
+            guards[t][h].reset( new cds::gc::DHP::Guard );
+            set_quiet( false );
+            std::pair<long, long> sl = slot_of( t, guards[t][h]->guard_ );
+            pseudo_end( "galloc", "T" + std::to_string( t ), "hp" + std::to_string( t ) + "." + std::to_string( sl.first ) + "." + std::to_string( sl.second ));
+            return { sl.first, sl.second };
+        }
+        // extend(): the block is linked by the traced store to extended_list_; it is named right after (no scheduling point
+        // in between: names are resolved when the trace is rendered)
+        guards[t][h].reset( new cds::gc::DHP::Guard );
+        set_quiet( true );
+        cds::gc::dhp::guard_block* b = r->hazards_.extended_list_.load();
+        set_quiet( false );
+        if ( b && ( blocks[t].empty() || blocks[t].back() != b )) {
+            blocks[t].push_back( b );
+            int k = int( blocks[t].size());
+            char nm[48];
+            std::snprintf( nm, sizeof nm, "gb%d.%d", t, k );
+            reg_name( b, sizeof( cds::gc::dhp::guard_block ), nm );
+            for ( size_t i = 0; i < block_size; ++i ) {
+                std::snprintf( nm, sizeof nm, "hp%d.%d.%d", t, k, int( i ));
+                reg_name( &b->first()[i].hp_, sizeof( b->first()[i].hp_ ), nm );
+            }
+        }
+        std::pair<long, long> sl = slot_of( t, guards[t][h]->guard_ );
+        return { sl.first, sl.second };
+    }
+    void gfree( int t, int h ) override { guards[t][h].reset(); }
+    template <class F> static void each_retired( rec_t* r, F f )
+    {
+        auto& ra = r->retired_;
+        for ( cds::gc::dhp::retired_block* b = ra.list_head_; b; b = b->next_ ) {
+            cds::gc::dhp::retired_ptr* last = b == ra.current_block_ ? ra.current_cell_ : b->last();
+            for ( cds::gc::dhp::retired_ptr* p = b->first(); p != last; ++p ) f( p->m_p );
+            if ( b == ra.current_block_ ) break;
+        }
+    }
+    size_t retired_count() override { size_t n = 0; each_retired( rec(), [&n]( void* ) { ++n; } ); return n; }
+    size_t retired_blocks() override { return rec()->retired_.block_count_; }
+    bool push_fills() override
+    {
+        auto& ra = rec()->retired_;
+        return ra.current_cell_ + 1 == ra.current_block_->last() && ra.current_block_->next_ == nullptr;
+    }
+    bool in_retired( Obj* p ) override              // call while quiet
+    {
+        bool found = false;
+        for ( int t = 0; t < MAXT; ++t )
+            if ( recs[t] ) each_retired( recs[t], [&found, p]( void* q ) { if ( q == p ) found = true; } );
+        return found;
+    }
 };
 
 struct Fixture {
@@ -204,6 +338,8 @@ struct Fixture {
     void* recptr[MAXT];
 
     size_t dhp_initial = 0;
+    bool sdhp = false;              // --static 1 with a DHP variant: the guards are allocated / freed by the traced program
+    int grow = 0;                   // --grow N (with sdhp): see program()
     explicit Fixture( Case const& c ) : variant( c.variant )
     {
         world.reset( new World );
@@ -231,6 +367,11 @@ struct Fixture {
             dhp_initial = size_t( c.optl( "dhp_initial", long( initials[( c.index / 2 ) % 6] )));
             smr.reset( new DhpSmr( dhp_initial ));
             nguards = variant == "dhp_many" ? 40 : 3;        // 40 guards force two extension blocks of the thread's guard storage
+            sdhp = static_;
+            if ( sdhp ) nguards = variant == "dhp_many" ? 40 : 7;     // handles of Guard objects
+            if ( sdhp ) grow = int( c.optl( "grow", 0 ));
+            if ( grow >= MAXG ) grow = MAXG - 1;
+            if ( grow > 0 && ncells < 2 ) ncells = 2;
         }
         for ( int i = 0; i < ncells; ++i ) {
             W->cells[i].store( W->make());
@@ -244,6 +385,7 @@ struct Fixture {
     std::string header_extra() const
     {
         if ( !static_ ) return std::string();
+        if ( sdhp ) return "static=1 " + smr->dhp_header() + " T=" + std::to_string( nthreads ) + " cells=" + std::to_string( ncells );
         return "static=1 H=" + std::to_string( H ) + " T=" + std::to_string( nthreads ) + " R=" + std::to_string( smr->retired_capacity())
             + " cells=" + std::to_string( ncells ) + " maxT=" + std::to_string( T );
     }
@@ -254,6 +396,66 @@ struct Fixture {
     {
         std::vector<std::vector<Op>> p( nthreads );
         bool many = variant == "dhp_many";
+        if ( sdhp ) {
+            // the machine's client with dynamic guards: every thread first constructs some Guard objects (dhp_many: up to
+            // 40, i.e. beyond the initial array and the first extension block), then mixes galloc / gfree with the rest;
+            // protect / clear / deref / gfree only name Guard objects that exist, galloc only ones that do not
+            for ( int t = 0; t < nthreads; ++t ) {
+                if ( t == 0 && grow > 0 ) {
+                    // `--grow N`: thread 0 makes its retired chain grow past one block.  N objects are retired while one of
+                    // its own guards protects them (protect, then swap the object out), then unguarded ones until the block
+                    // of retired_block::c_capacity entries is full: DHP::retire runs a pass, which frees fewer than a quarter
+                    // (N >= 3/4 of the capacity) and extends the chain; more retires go to the second block; passes before and
+                    // after some guards are cleared
+                    int cap = int( cds::gc::dhp::retired_block::c_capacity );
+                    for ( int h = 0; h < grow; ++h ) {
+                        p[0].push_back( Op( "galloc", h ));
+                        p[0].push_back( Op( "protect", h, 0 ));
+                        p[0].push_back( Op( "swap", 0 ));
+                    }
+                    // (cell 0 is only used by thread 0 in this mode; `take` empties it, so the following swap retires nothing)
+                    for ( int retired = grow, i = 0; retired < cap + 5; ++i ) {
+                        bool take = i % 7 == 3;
+                        p[0].push_back( Op( take ? "take" : "swap", 0 ));
+                        if ( take ) { ++retired; p[0].push_back( Op( "swap", 0 )); }
+                        else ++retired;
+                    }
+                    p[0].push_back( Op( "scan" ));
+                    for ( int h = 0; h < grow; h += 3 ) p[0].push_back( Op( h % 2 ? "clear" : "gfree", h ));
+                    p[0].push_back( Op( "scan" ));
+                    for ( int i = 0; i < 4; ++i ) p[0].push_back( Op( "swap", 0 ));
+                    continue;
+                }
+                std::vector<int> linked, unlinked;
+                int n0 = many ? int( r.below( 41 )) : 1 + int( r.below( 6 ));
+                for ( int h = 0; h < nguards; ++h ) {
+                    if ( h < n0 ) { p[t].push_back( Op( "galloc", h )); linked.push_back( h ); }
+                    else unlinked.push_back( h );
+                }
+                int n = 2 + int( r.below( nops * 2 ));
+                for ( int i = 0; i < n; ++i ) {
+                    unsigned k = unsigned( r.below( 100 ));
+                    long cell = grow > 0 ? 1 + long( r.below( ncells - 1 )) : long( r.below( ncells ));      // --grow: cell 0 is thread 0's
+                    size_t li = linked.empty() ? 0 : size_t( r.below( linked.size()));
+                    size_t ui = unlinked.empty() ? 0 : size_t( r.below( unlinked.size()));
+                    if ( k < 22 && !linked.empty()) p[t].push_back( Op( "protect", linked[li], cell ));
+                    else if ( k < 29 && !linked.empty()) p[t].push_back( Op( "clear", linked[li] ));
+                    else if ( k < 36 && !linked.empty()) p[t].push_back( Op( "deref", linked[li] ));
+                    else if ( k < 45 && !unlinked.empty()) {
+                        p[t].push_back( Op( "galloc", unlinked[ui] ));
+                        linked.push_back( unlinked[ui] ); unlinked.erase( unlinked.begin() + long( ui ));
+                    }
+                    else if ( k < 53 && !linked.empty()) {
+                        p[t].push_back( Op( "gfree", linked[li] ));
+                        unlinked.push_back( linked[li] ); linked.erase( linked.begin() + long( li ));
+                    }
+                    else if ( k < 78 ) p[t].push_back( Op( "swap", cell ));
+                    else if ( k < 88 ) p[t].push_back( Op( "take", cell ));
+                    else p[t].push_back( Op( "scan" ));
+                }
+            }
+            return p;
+        }
         for ( int t = 0; t < nthreads; ++t ) {
             int n = 2 + int( r.below( nops * 2 ));
             for ( int i = 0; i < n; ++i ) {
@@ -295,7 +497,8 @@ struct Fixture {
     {
         if ( !static_ ) { smr->attach(); attached[t] = true; smr->make_guards( t, nguards ); return; }
         set_quiet( true );
-        smr->attach(); attached[t] = true; smr->make_guards( t, nguards );
+        smr->attach(); attached[t] = true;
+        if ( !sdhp ) smr->make_guards( t, nguards );
         recptr[t] = smr->my_record();
         if ( !smr->name_record( t )) W->fail( "static-mode: guard g is not hazard slot g" );
         if ( ++nattached == nthreads ) {
@@ -347,6 +550,8 @@ struct Fixture {
             return { p ? long( geti( &p->id )) : 0L };
         }
         if ( op.name == "clear" ) { int g = int( op.args[0] ); W->prot[t][g] = nullptr; smr->clear( t, g ); return {}; }
+        if ( op.name == "galloc" ) return smr->galloc( t, int( op.args[0] ));
+        if ( op.name == "gfree" ) { int g = int( op.args[0] ); W->prot[t][g] = nullptr; smr->gfree( t, g ); return {}; }
         if ( op.name == "deref" ) {
             Obj* p = W->prot[t][int( op.args[0] )];
             if ( static_ ) {
@@ -372,12 +577,29 @@ struct Fixture {
             if ( old ) {                                     // unlinked: now, and only now, it may be retired
                 seti( &old->retired, 1 );
                 myretired[t].insert( old );
-                smr->retire( old );
+                if ( sdhp ) {
+                    // retired_array::push is thread-local: the pseudo-event marks it (the push follows with no scheduling
+                    // point in between); when the push fills the last block, DHP::retire runs a reclamation pass
+                    pseudo_begin();
+                    set_quiet( true );
+                    size_t n = smr->retired_count() + 1;
+                    bool pass = smr->push_fills();
+                    set_quiet( false );
+                    pseudo_end( "retire", "T" + std::to_string( t ), "o" + std::to_string( geti( &old->id )), std::to_string( n ));
+                    smr->retire( old );
+                    if ( pass ) ev_note( "scanned " + std::to_string( smr->retired_blocks()));
+                }
+                else
+                    smr->retire( old );
             }
             if ( static_ && n ) return { long( geti( &n->id )), old ? long( geti( &old->id )) : 0L };
             return { old ? long( geti( &old->id )) : 0L };
         }
-        if ( op.name == "scan" ) { smr->scan(); return {}; }
+        if ( op.name == "scan" ) {
+            smr->scan();
+            if ( sdhp ) ev_note( "scanned " + std::to_string( smr->retired_blocks()));
+            return {};
+        }
         if ( op.name == "reattach" ) {
             for ( int g = 0; g < MAXG; ++g ) W->prot[t][g] = nullptr;
             smr->drop_guards( t );
